@@ -92,6 +92,13 @@ func c02Query(c C02Case) string {
 			return sel + ` | regexp "container=(?P<container>\\S+) container_state=(?P<container_state>\\S+)"`
 		case "label_format":
 			return sel + ` | logfmt n, origin | label_format container_image="{{ .n }}"`
+		case "filter-state":
+			// a label filter right behind the selector: it filters lines, it selects no containers
+			return sel + ` | container_state="running"`
+		case "filter-msg":
+			return sel + ` | msg=~"n=[0-9]+ .*"`
+		case "filter-absent":
+			return sel + ` | zz_nosuch=""`
 		}
 		return sel
 	}
@@ -263,7 +270,7 @@ func c02Check(c C02Case) (r evid.Result) {
 			return r
 		}
 	}
-	if c.Metric {
+	if c.Metric || strings.HasPrefix(c.Stage, "filter-") {
 		return r
 	}
 	// Every line carries the labels of the container that produced it.
@@ -493,7 +500,7 @@ func c02Gen(t *rapid.T) C02Case {
 	if !c.RawSel {
 		c.RawSel = rapid.IntRange(0, 2).Draw(t, "raw-selector-values") == 0
 	}
-	c.Stage = rapid.SampledFrom([]string{"", "", "logfmt", "regexp", "label_format"}).Draw(t, "stage")
+	c.Stage = rapid.SampledFrom([]string{"", "", "logfmt", "regexp", "label_format", "filter-state", "filter-msg", "filter-absent"}).Draw(t, "stage")
 	if rapid.IntRange(0, 3).Draw(t, "metric") == 0 {
 		c.Metric = true
 		c.Stage = ""
